@@ -263,8 +263,36 @@ def skipped_in_queue(run, order_too=False):
 
 
 # ------------------------------------------------------------------------------ C02
-def m_C02(run):
+def hook_program_order(run):
+    """Operations one hook performs one after the other (`hook a do:o1:..+do:o2:..`: each is awaited
+    before the next begins) and that end up at the same actor are handled there in that order."""
     f = []
+    L = run.last()
+    if L < 0:
+        return f
+    for line in run.lines:
+        w = line.split()
+        if len(w) < 3 or w[0] != "hook":
+            continue
+        seq = []
+        for item in w[2].split("+"):
+            it = item.split(":")
+            if it[0] == "do" and len(it) >= 3 and it[2] in ("tell", "ask"):
+                seq.append(int(it[1]))
+        if len(seq) < 2:
+            continue
+        for a in range(run.nact):
+            hs = he_of(run.ev(L, a))
+            mine = [o for o in seq if o in hs]
+            idx = [hs.index(o) for o in mine]
+            if idx != sorted(idx):
+                f.append("the hook of actor %s performed operations %s one after the other, actor %d handled them in the order %s"
+                         % (w[1], mine, a, [o for o in hs if o in mine]))
+    return f
+
+
+def m_C02(run):
+    f = hook_program_order(run)
     L = run.last()
     for a in range(run.nact):
         hs = he_of(run.ev(L, a))
@@ -539,6 +567,14 @@ def m_C07(run):
             inhook = bool(evs) and (evs[-1] == "SE" or evs[-1].startswith("HE") or evs[-1] in ("ST0", "ST1"))
             if not inhook:
                 f.append("actor %d has no strong reference left, no hook in progress, and is still running" % a)
+        # the same judged from the script alone (an actor that keeps a strong reference to itself
+        # makes upgrade succeed): the table holds no strong reference to it, every operation has
+        # finished (none is queued or in flight holding one), no hook is in progress
+        if join == "running" and a in run.drop_rounds and not in_hook(evs) and not run.realtime \
+                and all(run.result_round(o)[0] is not None for o in run.ops) \
+                and not any(run.res(L, o) == "pending" for o in run.ops):
+            f.append("actor %d: every reference of the script to it has been dropped, no operation is in flight, no hook is "
+                     "in progress, and it is still running (upgrade %s)" % (a, "succeeds" if tok(line, "up=") == "1" else "fails"))
         # conversely: ended gracefully without cause
         if "ST0" in evs and not any(e.startswith("RD:err") for e in evs):
             st_round = run.first_round_with(a, lambda e: e == "ST0")
@@ -876,6 +912,32 @@ def m_C12(run):
         if "g:POISONED" in run.rounds[r].get("G", []):
             f.append("round %d: the wait-for graph mutex is poisoned" % (r + 1))
             break
+    f += pending_sender_of_failed_actor(run)
+    return f
+
+
+def pending_sender_of_failed_actor(run):
+    """'Its pending and future senders get errors': a tell that was still waiting for a mailbox slot
+    at a quiescent point (a tell that has its slot returns at once), whose target then ends by a
+    panic or a hook error, must not come back Ok - nobody will ever handle it.  (One thread: a waiter
+    that is handed a slot runs before anything else happens, so pending at a quiescent point means
+    no slot.  Real-time runs are left out: there a late push is possible and harmless.)"""
+    f = []
+    if run.realtime:
+        return f
+    L = run.last()
+    for o, m in run.ops.items():
+        a = m["target"]
+        if a is None or m["hook"] or m["kind"] != "tell" or m["round"] is None:
+            continue
+        rr, v = run.result_round(o)
+        if v != "ok0" or rr is None or rr == 0 or run.res(rr - 1, o) != "pending":
+            continue
+        line = run.aline(rr, a)
+        evs, join = events(line), tok(line, "join=")
+        if crashed(evs, join) and o not in he_of(run.ev(L, a)):
+            f.append("op %d (tell) was waiting for a slot of actor %d, the actor then failed, and the tell returned Ok in round %d "
+                     "although its message is never handled" % (o, a, rr + 1))
     return f
 
 
